@@ -57,13 +57,16 @@ def main():
     ctx.rep, ctx.tier, ctx.seed, ctx.rng = rep, tier, seed, random.Random(seed * 7919 + 17)
     ctx.thorough = tier == "thorough"
     ctx.replay = replay
+    ctx.props = props        # checks with source-derived theorems append them to props['theorems']
     try:
         with core.Scratch() as sc:
             ctx.scratch = sc
             rep.note("scratch_build_s", round(sc.build_s, 1))
             changed = core.source_changed(os.path.join(sc.dir, "pyndl"))
             rep.note("source_differs_from_baseline_in", changed)
-            if changed and not ctx.thorough and not os.environ.get("PV_NO_ESCALATE"):
+            relevant = [f for f in changed if f in core.RELEVANT.get(pid, set(changed)) or f.startswith("<")]
+            rep.note("source_differs_in_files_relevant_to_this_property", relevant)
+            if relevant and not ctx.thorough and getattr(mod, "ESCALATE", True) and not os.environ.get("PV_NO_ESCALATE"):
                 # the tree is not the one the quick tier was calibrated on: explore it with the thorough generators
                 ctx.thorough = True
                 rep.note("escalated_to_thorough_generators", True)
